@@ -182,6 +182,18 @@ OpQuote(o) ==
     /\ nshow' = nshow + 1 /\ posKnown' = FALSE
     /\ UNCHANGED <<ctm, lead, fs, tc, tw, tz, stack, inText>>
 
+\* ' and " with an EMPTY string (a blank line): the move to the next line happens, nothing is shown, and - no glyph
+\* having advanced the text matrix - the position of the next show is known
+OpQuoteE(o) ==
+    /\ o.op = "'e" /\ inText
+    /\ tlm' = Cat(Tr(0, -lead), tlm) /\ tm' = tlm' /\ posKnown' = TRUE
+    /\ UNCHANGED <<ctm, lead, fs, tc, tw, tz, stack, inText, out, nshow>>
+OpDQuoteE(o) ==
+    /\ o.op = "dqe" /\ inText
+    /\ tw' = o.a[1] /\ tc' = o.a[2]
+    /\ tlm' = Cat(Tr(0, -lead), tlm) /\ tm' = tlm' /\ posKnown' = TRUE
+    /\ UNCHANGED <<ctm, lead, fs, tz, stack, inText, out, nshow>>
+
 \* aw ac string "  ==  aw Tw ; ac Tc ; string '
 OpDQuote(o) ==
     /\ o.op = "dq" /\ inText
@@ -204,7 +216,7 @@ Step(o) ==
     /\ \/ OpQSave(o) \/ OpQRestore(o) \/ OpCm(o) \/ OpBT(o) \/ OpET(o)
        \/ OpTf(o) \/ OpTL(o) \/ OpTc(o) \/ OpTw(o) \/ OpTz(o)
        \/ OpTm(o) \/ OpTd(o) \/ OpTD(o) \/ OpTstar(o)
-       \/ OpTj(o) \/ OpQuote(o) \/ OpDQuote(o) \/ OpDo(o)
+       \/ OpTj(o) \/ OpQuote(o) \/ OpDQuote(o) \/ OpDo(o) \/ OpQuoteE(o) \/ OpDQuoteE(o)
     /\ prog' = Append(prog, o)
 
 Next == \E o \in Ops :
